@@ -236,7 +236,45 @@ func genC16Raw(g *Gen) {
 		return uu.slot, Hex([]byte(uu.uid))
 	}
 	for n := 0; n < nops; n++ {
-		switch g.R.Pick(66, 12, 12, 5, 5) {
+		switch g.R.Pick(60, 12, 12, 5, 5, 6, 5) {
+		case 5:
+			// two (or three) mutations of ONE row inside one batch, larger value first:
+			// the batch must behave as its sequential history (the overlay of staged rows)
+			i := g.R.Intn(len(keys))
+			hi := uint64(g.R.Range(20, 60))
+			lo := uint64(g.R.Intn(20))
+			var subs []string
+			switch g.R.Intn(4) {
+			case 0:
+				subs = []string{fmt.Sprintf("cak %s %d %d", keys[i].s(), hi, c16Time(g)), fmt.Sprintf("cak %s %d %d", keys[i].s(), lo, c16Time(g))}
+				g.Count("shape:batch-same-row-ack-desc")
+			case 1:
+				subs = []string{fmt.Sprintf("rd %s %d %d", keys[i].s(), hi, g.R.Intn(100)), fmt.Sprintf("rd %s %d %d", keys[i].s(), lo, g.R.Intn(100))}
+				g.Count("shape:batch-same-row-read-desc")
+			case 2:
+				subs = []string{fmt.Sprintf("hd %s %d %d", keys[i].s(), hi, g.R.Intn(100)), fmt.Sprintf("hd %s %d %d", keys[i].s(), lo, g.R.Intn(100))}
+				g.Count("shape:batch-same-row-hide-desc")
+			default:
+				subs = []string{fmt.Sprintf("rd %s %d %d", keys[i].s(), hi, g.R.Intn(100)), fmt.Sprintf("hd %s %d %d", keys[i].s(), hi, g.R.Intn(100)),
+					fmt.Sprintf("rd %s %d %d", keys[i].s(), lo, g.R.Intn(100)), fmt.Sprintf("cak %s %d %d", keys[i].s(), hi, g.R.Intn(100)), fmt.Sprintf("cak %s %d %d", keys[i].s(), lo, g.R.Intn(100))}
+				g.Count("shape:batch-same-row-mixed-desc")
+			}
+			if g.R.Chance(30) {
+				subs = append([]string{subOp(true)}, subs...)
+			}
+			emit("bt " + strings.Join(subs, " ; "))
+		case 6:
+			// clock skew: a delete carrying a NEWER source version but an UpdatedAt that is not newer
+			// than the stored one, then a delayed add whose version lies between the old fence and the delete
+			i := g.R.Intn(len(keys))
+			m := info[i].maxSV
+			late := int64(g.R.Range(50, 99))
+			emit(fmt.Sprintf("up %s %d %d %d 0 0 0 %d %d", keys[i].s(), c16Seq(g), c16Seq(g), c16Seq(g), m+1, g.R.Intn(50)))
+			emit(fmt.Sprintf("rd %s %d %d", keys[i].s(), 40+g.R.Intn(20), late))
+			emit(fmt.Sprintf("up %s 1 0 0 0 1 %d %d %d", keys[i].s(), g.R.Intn(50), m+3, []int64{late, late - 1, 0, int64(g.R.Intn(int(late)))}[g.R.Intn(4)]))
+			emit(fmt.Sprintf("up %s %d %d %d 0 0 0 %d %d", keys[i].s(), g.R.Intn(30), g.R.Intn(30), g.R.Intn(30), m+2, g.R.Intn(100)))
+			info[i].sent, info[i].maxSV, info[i].tomb = true, m+3, true
+			g.Count("shape:skewed-delete-then-late-add")
 		case 0:
 			emit(subOp(false))
 		case 1:
